@@ -307,6 +307,11 @@ class Interp:
             if isinstance(obj, (z3.ExprRef, Opaque)) or hasattr(obj, "pz_call"):
                 raise Unsupported(f"isinstance({obj!r}, {cls})")
             return isinstance(obj, cls)
+        if fn is divmod and len(args) == 2:
+            a, b = args
+            if isinstance(a, (int, z3.ArithRef)) and isinstance(b, int) and b > 0:
+                return (a / b, a % b) if isinstance(a, z3.ArithRef) else divmod(a, b)
+            raise Unsupported("divmod on these operands")
         owner = getattr(fn, "__self__", None)
         if isinstance(owner, (list, dict, set)) and getattr(fn, "__name__", "") in ("append", "extend", "get", "keys", "values", "items", "add"):
             return fn(*args, **kwargs)
